@@ -513,4 +513,298 @@ theorem step_disconnect_with_will (s : Server) (i : Nat) (sei : Option Nat) (hi 
   rw [e]
   exact ⟨d1, d2⟩
 
+theorem publishToClientCore_willDelayed (s : Server) (i : Nat) (sub : Sub) (f : Bool) (pk : Msg) :
+    (publishToClientCore s i sub f pk).1.willDelayed = s.willDelayed := by
+  unfold publishToClientCore
+  extract_lets c out
+  split
+  rename_i c1 out1 heq
+  clear heq
+  extract_lets s1
+  split
+  · split
+    · rfl
+    · split
+      · rfl
+      · rename_i pid _
+        extract_lets c2 out2 sentQuota
+        split
+        rename_i c3 isNew hfl
+        extract_lets c4 s2 src s3
+        have h3 : s3.willDelayed = s.willDelayed := by
+          show Server.willDelayed (if isNew = true then _ else _) = _
+          split <;> rfl
+        split
+        · exact h3
+        · split <;> exact h3
+  · split <;> rfl
+
+/-! ### the housekeeping tick for delayed wills -/
+
+/-- the registered delayed wills that are due at virtual time `t` -/
+def dueWills (s : Server) (t : Int) : List (Str × Msg) := s.willDelayed.filter (fun e => decide (t > e.2.expiry))
+
+/-- what `tickWills` does for ONE due entry: fan the message out; if the client id is still registered, retain the
+    message (if it is to be retained), clear the will of the session and emit the will event; remove the entry -/
+def publishDue (acc : Server × List Out) (e : Str × Msg) : Server × List Out :=
+  let r := publishToSubscribers acc.1 e.2
+  let r2 : Server × List Out := match assocGet r.1.clients e.1 with
+    | some i => (modObj (if e.2.retain then retainMsg r.1 e.2 else r.1) i (fun c => { c with will := {} }), [willEvent e.1])
+    | none => (r.1, [])
+  ({ r2.1 with willDelayed := assocDel r2.1.willDelayed e.1 }, acc.2 ++ r.2 ++ r2.2)
+
+theorem foldl_filter_eq {α β} (p : α → Bool) (f g : β → α → β) (l : List α) (b : β)
+    (h : ∀ b a, f b a = if p a then g b a else b) : l.foldl f b = (l.filter p).foldl g b := by
+  induction l generalizing b with
+  | nil => rfl
+  | cons x xs ih =>
+    rw [List.foldl_cons, h, List.filter_cons]
+    cases hp : p x
+    · simp only [Bool.false_eq_true, if_false]; exact ih b
+    · simp only [if_true, List.foldl_cons]; exact ih _
+
+/-- **`tickWills` publishes exactly the due entries, each once, in the order of the list** -/
+theorem tickWills_eq (s : Server) (t : Int) : tickWills s t = (dueWills s t).foldl publishDue (s, []) := by
+  unfold tickWills dueWills
+  refine foldl_filter_eq _ _ _ _ _ ?_
+  intro b a
+  by_cases h : t > a.2.expiry
+  · simp only [h, if_true, decide_true]
+    unfold publishDue
+    generalize publishToSubscribers b.1 a.2 = p
+    obtain ⟨ps, po⟩ := p
+    simp only []
+    cases hg : assocGet ps.clients a.1 <;> rfl
+  · simp only [h, if_false, decide_false, Bool.false_eq_true]
+
+theorem tickWills_nothing_due (s : Server) (t : Int) (h : ∀ e ∈ s.willDelayed, ¬ t > e.2.expiry) :
+    tickWills s t = (s, []) := by
+  rw [tickWills_eq]
+  have : dueWills s t = [] := by
+    unfold dueWills
+    apply List.filter_eq_nil_iff.mpr
+    intro e he
+    simpa using h e he
+  rw [this]; rfl
+
+/-- the outputs of one due entry: the fan-out of its message, then the will event iff the id is registered; the
+    Clients map is not changed -/
+theorem publishDue_out (acc : Server × List Out) (e : Str × Msg) :
+    (publishDue acc e).2 = acc.2 ++ (publishToSubscribers acc.1 e.2).2 ++
+      (if (assocGet acc.1.clients e.1).isSome then [willEvent e.1] else []) ∧
+    (publishDue acc e).1.clients = acc.1.clients ∧
+    (publishDue acc e).1.willDelayed = assocDel acc.1.willDelayed e.1 := by
+  have hc := (publishToSubscribers_deliv acc.1 e.2).clients
+  have hwd : (publishToSubscribers acc.1 e.2).1.willDelayed = acc.1.willDelayed := by
+    unfold publishToSubscribers
+    split
+    · rfl
+    · extract_lets e' pk' r subsMap inl
+      refine foldl_inv (fun (a : Server × List Out) => a.1.willDelayed = acc.1.willDelayed) _ _ _ rfl ?_
+      intro a cs ha
+      split
+      · exact ha
+      · rename_i k _
+        split
+        rename_i s' o heq
+        have : s' = (publishToClient a.1 k cs.2 false pk').1 := by rw [heq]
+        rw [this]
+        refine Eq.trans ?_ ha
+        unfold publishToClient
+        split
+        · rfl
+        · split
+          · rfl
+          · exact publishToClientCore_willDelayed a.1 k cs.2 false pk'
+  unfold publishDue
+  simp only []
+  rw [hc]
+  cases hg : assocGet acc.1.clients e.1 with
+  | none => exact ⟨by simp, hc, by rw [hwd]⟩
+  | some i =>
+    refine ⟨by simp, ?_, ?_⟩
+    · show (setObj _ i _).clients = _
+      show (if e.2.retain = true then retainMsg _ e.2 else _).clients = _
+      split
+      · rw [(retainMsg_deliv _ _).clients, hc]
+      · exact hc
+    · show assocDel (setObj _ i _).willDelayed e.1 = _
+      show assocDel (if e.2.retain = true then retainMsg _ e.2 else _).willDelayed e.1 = _
+      split
+      · have : (retainMsg (publishToSubscribers acc.1 e.2).1 e.2).willDelayed =
+            (publishToSubscribers acc.1 e.2).1.willDelayed := by
+          unfold retainMsg; split <;> rfl
+        rw [this, hwd]
+      · rw [hwd]
+
+theorem mem_assocDel_iff {α β} [DecidableEq α] (m : List (α × β)) (k : α) (e : α × β) :
+    e ∈ assocDel m k ↔ e ∈ m ∧ e.1 ≠ k := by
+  unfold assocDel
+  simp [List.mem_filter]
+
+theorem fold_publishDue (L : List (Str × Msg)) (acc : Server × List Out) :
+    (L.foldl publishDue acc).1.clients = acc.1.clients ∧
+    ∀ e, e ∈ (L.foldl publishDue acc).1.willDelayed ↔ e ∈ acc.1.willDelayed ∧ ∀ d ∈ L, d.1 ≠ e.1 := by
+  induction L generalizing acc with
+  | nil => exact ⟨rfl, fun e => by simp⟩
+  | cons x xs ih =>
+    obtain ⟨_, h2, h3⟩ := publishDue_out acc x
+    obtain ⟨i1, i2⟩ := ih (publishDue acc x)
+    rw [List.foldl_cons]
+    refine ⟨i1.trans h2, fun e => ?_⟩
+    rw [i2 e, h3, mem_assocDel_iff]
+    constructor
+    · rintro ⟨⟨a, b⟩, c⟩
+      refine ⟨a, fun d hd => ?_⟩
+      rcases List.mem_cons.mp hd with rfl | hd
+      · exact fun h => b h.symm
+      · exact c d hd
+    · rintro ⟨a, b⟩
+      exact ⟨⟨a, fun h => b x List.mem_cons_self h.symm⟩, fun d hd => b d (List.mem_cons_of_mem _ hd)⟩
+
+/-- what is left in `willDelayed` after the tick: the entries whose client id is not the id of a due entry; the
+    Clients map is untouched -/
+theorem tickWills_willDelayed (s : Server) (t : Int) :
+    (tickWills s t).1.clients = s.clients ∧
+    ∀ e, e ∈ (tickWills s t).1.willDelayed ↔ e ∈ s.willDelayed ∧ ∀ d ∈ dueWills s t, d.1 ≠ e.1 := by
+  rw [tickWills_eq]
+  exact fold_publishDue (dueWills s t) (s, [])
+
+theorem eq_of_key_eq_of_nodup {α β} (m : List (α × β)) (hnd : (m.map (·.1)).Nodup) (a b : α × β)
+    (ha : a ∈ m) (hb : b ∈ m) (h : a.1 = b.1) : a = b := by
+  induction m with
+  | nil => cases ha
+  | cons x xs ih =>
+    rw [List.map_cons, List.nodup_cons] at hnd
+    rcases List.mem_cons.mp ha with rfl | ha' <;> rcases List.mem_cons.mp hb with rfl | hb'
+    · rfl
+    · exact absurd (by rw [h]; exact List.mem_map_of_mem (f := (·.1)) hb') hnd.1
+    · exact absurd (by rw [← h]; exact List.mem_map_of_mem (f := (·.1)) ha') hnd.1
+    · exact ih hnd.2 ha' hb'
+
+/-- … when `willDelayed` is a map (one entry per client id): exactly the entries that are not yet due are left -/
+theorem tickWills_willDelayed_nodup (s : Server) (t : Int) (hnd : (s.willDelayed.map (·.1)).Nodup) (e : Str × Msg) :
+    e ∈ (tickWills s t).1.willDelayed ↔ e ∈ s.willDelayed ∧ ¬ t > e.2.expiry := by
+  rw [(tickWills_willDelayed s t).2 e]
+  constructor
+  · rintro ⟨a, b⟩
+    refine ⟨a, fun hdue => ?_⟩
+    exact b e (by unfold dueWills; exact List.mem_filter.mpr ⟨a, by simpa using hdue⟩) rfl
+  · rintro ⟨a, b⟩
+    refine ⟨a, fun d hd hk => b ?_⟩
+    unfold dueWills at hd
+    obtain ⟨hd1, hd2⟩ := List.mem_filter.mp hd
+    have := eq_of_key_eq_of_nodup _ hnd d e hd1 a hk
+    subst this
+    simpa using hd2
+
+theorem step_tick_wills (s : Server) (t : Int) : step s (.tick "wills" t) = tickWills s t := by
+  rw [step]
+  have h1 : ("wills" == "clients") = false := by decide
+  have h2 : ("wills" == "retained") = false := by decide
+  have h3 : ("wills" == "inflight") = false := by decide
+  have h4 : ("wills" == "wills") = true := by decide
+  simp only [h1, h2, h3, h4, Bool.false_eq_true, if_false, if_true]
+
+/-! ### a connection of the same client id removes the registered delayed will -/
+
+theorem admitC_willDelayed (s : Server) (i : Nat) (k : Connect) (present : Bool) :
+    (admitC s i k present).1.willDelayed = assocDel s.willDelayed k.id := by
+  unfold admitC
+  extract_lets +onlyGivenNames s1
+  split
+  · refine foldl_inv (fun (acc : Server × List Out) => acc.1.willDelayed = assocDel s.willDelayed k.id) _ _ _ rfl ?_
+    intro acc m h
+    extract_lets m' o s'
+    show s'.willDelayed = _
+    refine Eq.trans ?_ h
+    show Server.willDelayed (if (m.type == 4 || m.type == 7) = true then _ else acc.1) = _
+    split
+    · split
+      rename_i c' ok hfl
+      extract_lets s''
+      show Server.willDelayed (if ok = true then _ else s'') = _
+      split <;> rfl
+    · rfl
+  · rfl
+
+/-- after an admitted CONNECT (the part of `attachClient` up to the read loop) no delayed will is registered under
+    the client id: whatever was registered is removed (`willDelayed.Delete`), without having been published -/
+theorem connect_admitted_willDelayed (s : Server) (conn : Nat) (k : Connect)
+    (h : refuseCode { s with objs := s.objs ++ [parseConnect s conn k], connOf := s.connOf ++ [(conn, s.objs.length)] } k
+      (parseConnect s conn k) = none) :
+    ∀ e ∈ (connect s conn k).1.willDelayed, e.1 ≠ k.id := by
+  intro e he
+  unfold connect at he
+  simp only [h] at he
+  rw [admitClient_fst, admitC_willDelayed] at he
+  exact ((mem_assocDel_iff _ _ _).mp he).2
+
+/-! ### after the will was handled: the object is stopped, its will flag cleared; a stopped object's handler is gone -/
+
+theorem sendLWT_now_flag (s : Server) (i : Nat) (hi : i < s.objs.length) (hf : (getObj s i).will.flag = true)
+    (hd : (getObj s i).will.delay = 0) : (getObj (sendLWT s i).1 i).will.flag = false := by
+  rw [sendLWT_now s i hf hd]
+  have hl : i < (publishToSubscribers (retainedState s (willMsg (getObj s i))) (willMsg (getObj s i))).1.objs.length := by
+    rw [(publishToSubscribers_deliv _ _).len, retainedState_objs]; exact hi
+  show (getObj (modObj _ i _) i).will.flag = false
+  rw [getObj_modObj_lt _ i _ hl]
+
+theorem sendLWT_len (s : Server) (i : Nat) : (sendLWT s i).1.objs.length = s.objs.length := (sendLWT_good s i).len
+
+/-- the error exit of a live network client's handler leaves the object stopped, with the will `sendLWT` left -/
+theorem detach_true_live_obj (s : Server) (i : Nat) (hi : i < s.objs.length) (hst : (getObj s i).stopped = false)
+    (hin : (getObj s i).inline = false) :
+    (getObj (detach s i true).1 i).stopped = true ∧
+    (getObj (detach s i true).1 i).will = (getObj (sendLWT s i).1 i).will := by
+  have o := sendLWT_own s i
+  have e := stopClient_live (sendLWT s i).1 i (o.stopped.symm.trans hst) (o.inline.symm.trans hin)
+  have k := detachB_keep (stopClient (sendLWT s i).1 i).1 i i
+  have g : getObj (stopClient (sendLWT s i).1 i).1 i =
+      { getObj (sendLWT s i).1 i with isOpen := false, stopped := true } := by
+    rw [e]; exact getObj_setObj_eq _ i _ (by rw [sendLWT_len]; exact hi)
+  constructor
+  · show (getObj (detachB (stopClient (sendLWT s i).1 i).1 i) i).stopped = true
+    rw [k.stopped, g]
+  · show (getObj (detachB (stopClient (sendLWT s i).1 i).1 i) i).will = _
+    rw [k.will, g]
+
+/-- after the loss of its connection a live network client's object is stopped, and its will flag is cleared if the
+    will was published at once -/
+theorem step_drop_live_obj (s : Server) (i : Nat) (hi : i < s.objs.length) (hst : (getObj s i).stopped = false)
+    (hin : (getObj s i).inline = false) (hc : assocGet s.connOf (getObj s i).conn = some i) :
+    (getObj (step s (.drop (getObj s i).conn)).1 i).stopped = true ∧
+    ((getObj s i).will.flag = true → (getObj s i).will.delay = 0 →
+      (getObj (step s (.drop (getObj s i).conn)).1 i).will.flag = false) := by
+  have e := getObj_peerLost_self s i hi
+  have hl : i < (peerLost s i).objs.length := by
+    show i < (setObj s i _).objs.length
+    rw [setObj_length]; exact hi
+  obtain ⟨d1, d2⟩ := detach_true_live_obj (peerLost s i) i hl (by rw [e]; exact hst) (by rw [e]; exact hin)
+  have es : (step s (.drop (getObj s i).conn)).1 = (detach (peerLost s i) i true).1 := by
+    rw [step]
+    simp only [hc, hst, Bool.false_eq_true, if_false]
+    rfl
+  rw [es]
+  refine ⟨d1, fun hf hd => ?_⟩
+  rw [d2]
+  exact sendLWT_now_flag _ i hl (by rw [e]; exact hf) (by rw [e]; exact hd)
+
+/-- the handler of a stopped object has left its read loop: a lost connection, an inbound packet, a cut connection
+    do nothing -/
+theorem step_stopped_noop (s : Server) (conn i : Nat) (hc : assocGet s.connOf conn = some i)
+    (hst : (getObj s i).stopped = true) (hop : (getObj s i).isOpen = false) :
+    step s (.drop conn) = (s, []) ∧ (∀ pk, step s (.recv conn pk) = (s, [])) ∧
+    (∀ pk, step s (.recvCut conn pk) = (s, [])) := by
+  refine ⟨?_, fun pk => ?_, fun pk => ?_⟩
+  · rw [step]; simp only [hc, hst, if_true]
+  · rw [step]; unfold recvOn; simp only [hc, hop, Bool.not_false, if_true]
+  · rw [step]; simp only [hc, hst, Bool.true_or, if_true]
+
+/-- … and a CONNECT of the same client id does not run its teardown (there is no live handler to take over) -/
+theorem admitA_stopped_no_takeover (s : Server) (i : Nat) (k : Connect) (e : Nat)
+    (he : assocGet s.clients k.id = some e) (hst : (getObj s e).stopped = true) : (admitA s i k).2.2.2 = none := by
+  rw [admitA_exLive_eq]
+  simp only [he, hst, Bool.true_or, if_true]
+
 end Mochi.Broker
